@@ -745,6 +745,141 @@ func burstSpace(tier string) mck.Space {
 	}}
 }
 
+// producerIn reports whether the producer goroutine is parked in the given wait state (the bracketed word of the
+// runtime's goroutine dump, e.g. "IO wait" = blocked in a socket write).
+func producerIn(state string) bool {
+	buf := make([]byte, 1<<16)
+	n := runtime.Stack(buf, true)
+	for _, g := range strings.Split(string(buf[:n]), "\n\n") {
+		if strings.Contains(g, "producer.(*RawSocket).inputMsg") {
+			return strings.Contains(strings.SplitN(g, "\n", 2)[0], "["+state)
+		}
+	}
+	return false
+}
+
+// stallSpace: a sink that stays connected but STOPS READING while more is in flight than the socket buffers
+// hold - the producer blocks in its write (state barrier: its goroutine is in "IO wait"), stays there for a
+// while (quick 6 s, thorough 35 s of real time: long enough for a plausible write time-out to fire), then the
+// sink reads on. Every message must arrive exactly once, whole and in order: a blocked write is not a failed one.
+func stallSpace(tier string) mck.Space {
+	stall := 6 * time.Second
+	if tier == "thorough" {
+		stall = 35 * time.Second
+	}
+	dims := mck.Radix{2} // retry-max 0 / 2
+	return mck.FuncSpace{N: dims.Size(), F: func(idx uint64, c *mck.Ctx) {
+		retry := []int{0, 2}[idx]
+		const nmsg, size = 4, 6 << 20
+		var hand, msgs [][]byte
+		for i := 0; i < nmsg; i++ {
+			m := make([]byte, size+i)
+			for j := range m {
+				m[j] = byte('a' + (j+i)%23)
+			}
+			copy(m, fmt.Sprintf("{\"n\":%d,\"big\":\"", i+1))
+			hand = append(hand, m)
+			msgs = append(msgs, append([]byte{}, m...))
+		}
+		desc := func() interface{} {
+			return map[string]interface{}{"protocol": "tcp", "case": fmt.Sprintf("%d messages of %d MiB, the sink does not read for %v while the producer is blocked in its write", nmsg, size>>20, stall), "retry-max": retry}
+		}
+		c.SetCase(desc)
+		s := newSink()
+		defer func() {
+			s.closeConns(true)
+			s.down()
+		}()
+		cfg := filepath.Join(tmpDir(), "mq.conf")
+		os.WriteFile(cfg, []byte(fmt.Sprintf("url: %s\nprotocol: tcp\nretry-max: %d\n", s.addr, retry)), 0644)
+		p := producer.NewProducer("rawSocket")
+		p.MQConfigFile = cfg
+		var ec uint64
+		p.MQErrorCount = &ec
+		p.Logger = log.New(io.Discard, "", 0)
+		p.Chan = make(chan []byte, 16)
+		p.Topic = "t"
+		done := make(chan error, 1)
+		go func() { done <- p.Run() }()
+		closed := false
+		defer func() {
+			if !closed {
+				close(p.Chan)
+			}
+		}()
+		for k := 0; k < 10 && len(s.conns) == 0; k++ {
+			s.acceptPending(2 * time.Second)
+		}
+		if len(s.conns) != 1 {
+			c.Violation("producer:no-initial-connection", "the producer did not connect to the sink", desc())
+			return
+		}
+		for _, m := range hand {
+			p.Chan <- m
+		}
+		// barrier: the producer is blocked in a write (the sink has not read a single octet)
+		blocked := false
+		for k := 0; k < 100000 && !blocked; k++ {
+			blocked = producerIn("IO wait")
+			if !blocked {
+				time.Sleep(200 * time.Microsecond)
+			}
+		}
+		if !blocked {
+			c.Skip() // the socket buffers swallowed everything: the case does not arise on this machine
+			return
+		}
+		c.Heartbeat()
+		for t0 := time.Now(); time.Since(t0) < stall; {
+			time.Sleep(500 * time.Millisecond)
+			c.Heartbeat()
+		}
+		// the sink reads on until the producer has come to rest
+		total := 0
+		for _, m := range msgs {
+			total += len(m) + 1
+		}
+		for k := 0; k < 400000; k++ {
+			s.drain(0)
+			if len(p.Chan) == 0 && producerIdle() && len(s.bufs) > 0 && (len(s.bufs[0]) >= total || k%50 == 49 && sendQueueEmpty(producer.VerifConn(p))) {
+				s.drain(0)
+				break
+			}
+			time.Sleep(100 * time.Microsecond)
+			if k%5000 == 0 {
+				c.Heartbeat()
+			}
+		}
+		s.settle(p)
+		close(p.Chan)
+		closed = true
+		select {
+		case <-done:
+		case <-time.After(10 * time.Second):
+		}
+		var got [][]byte
+		for _, b := range s.bufs {
+			parts := bytes.Split(b, []byte("\n"))
+			got = append(got, parts[:len(parts)-1]...)
+		}
+		c.Nontrivial(mck.Hash64([]byte(fmt.Sprint("stall", retry))))
+		c.States(1)
+		c.Transitions(nmsg)
+		if len(got) != nmsg {
+			c.Violation("producer:stall:lost-or-split", fmt.Sprintf("%d lines at the sink after a stalled write, %d messages were handed over (no connection ever failed)", len(got), nmsg), desc())
+			return
+		}
+		for i := range msgs {
+			if !bytes.Equal(got[i], msgs[i]) {
+				c.Violation("producer:stall:altered", fmt.Sprintf("message %d arrived with %d octets instead of %d or with other content (no connection ever failed)", i+1, len(got[i]), len(msgs[i])), desc())
+				return
+			}
+		}
+		c.Outcome("delivered whole after the stall")
+		c.Sample(desc)
+	}}
+}
+
 // udpSpace: udp socket configuration; the sink is a UDP listener that is up / down per message.
 func udpSpace(tier string) mck.Space {
 	const nmsg = 6
@@ -879,5 +1014,5 @@ func udpSpace(tier string) mck.Space {
 }
 
 func main() {
-	mck.Main(map[string]func(string) mck.Space{"prod.tcp": tcpSpace, "prod.burst": burstSpace, "prod.udp": udpSpace})
+	mck.Main(map[string]func(string) mck.Space{"prod.tcp": tcpSpace, "prod.burst": burstSpace, "prod.stall": stallSpace, "prod.udp": udpSpace})
 }
